@@ -64,9 +64,27 @@ def case(draw):
         first = draw(st.sampled_from(with_deps))
         order = [first] + [c for c in order if c != first]
     faulted = {c: draw(st.sampled_from(FAULTS)) for c in order[:nf]}
+    # a phony command may have a plain source among its inputs: deleting that file is a failure of the phony
+    # command itself (missing input without a producer) -- the build must report it
+    prod_all = bm.producers(desc)
+    phony_src = [(c["name"], i) for c in bm.needed_commands(desc, desc["targets"][target]) if c["tool"] == "phony"
+                 for i in c.get("inputs", []) if not bm.is_virtual(i) and i not in prod_all and i in desc["sources"]]
+    if not phony_src and draw(st.integers(0, 3)) == 0:
+        # give the ALL group (or any needed phony) a source input
+        phs = [c for c in desc["commands"] if c["tool"] == "phony" and c["name"] in
+               [x["name"] for x in bm.needed_commands(desc, desc["targets"][target])]]
+        if phs and desc["sources"]:
+            ph = draw(st.sampled_from(phs))
+            src = draw(st.sampled_from(sorted(desc["sources"])))
+            if src not in ph["inputs"] and not src.startswith("sd/"):
+                ph["inputs"] = ph["inputs"] + [src]
+                phony_src = [(ph["name"], src)]
+    if phony_src and draw(st.booleans()):
+        nm, src = draw(st.sampled_from(phony_src))
+        faulted = {nm: "missing-input:" + src}
     blockable = [c["name"] for c in bm.needed_commands(desc, desc["targets"][target])
                  if c["tool"] == "symlink" and "/" in c["outputs"][0]]
-    if blockable and draw(st.booleans()):
+    if blockable and not any(f.startswith("missing-input:") for f in faulted.values()) and draw(st.booleans()):
         faulted[draw(st.sampled_from(blockable))] = "blockdir"
     jobs = draw(st.sampled_from([None, 4, 4]))
     slow = {}
@@ -155,7 +173,10 @@ def run_case(case, ctx, verbose=False):
         byname_all = {c["name"]: c for c in desc["commands"]}
         blocked = {}
         for c, f in list(case["faults"].items()) + list(case["slow"].items()):
-            if f == "blockdir":
+            if f.startswith("missing-input:"):
+                ws.delete(f.split(":", 1)[1])
+                blocked[c] = None
+            elif f == "blockdir":
                 # a regular file where the directory of the link should be
                 d = byname_all[c]["outputs"][0].split("/")[0]
                 shutil.rmtree(ws.path(d), ignore_errors=True)
@@ -176,7 +197,27 @@ def run_case(case, ctx, verbose=False):
         ev_started = {bm.unhx(e[1]) for e in r1.events if e[0] == "started"}
         ev_failed = {bm.unhx(e[1]) for e in r1.events if e[0] == "finished" and len(e) > 2 and e[2] == "1"}
         sym_failed = {c for c in blocked if c in ev_failed}
+        missing_phony = [c for c, f in case["faults"].items() if f.startswith("missing-input:")]
+        if missing_phony:
+            if r1.ok:
+                return Outcome("phony command %s has a missing input without a producer (%s was deleted) but the build "
+                               "reported success" % (missing_phony[0], case["faults"][missing_phony[0]].split(":", 1)[1]),
+                               classes=cls)
+            cls.append("fault:missing-input-of-phony")
+            # repair and converge
+            for c in missing_phony:
+                src = case["faults"][c].split(":", 1)[1]
+                ws.write(src, desc["sources"][src])
+            r2 = build()
+            if not r2.ok:
+                return Outcome("build after restoring the missing input failed: rc=%s %s" % (r2.rc, r2.stderr[-300:]), classes=cls)
+            v, _, _ = bm.check_outputs(ws, desc, roots)
+            if v:
+                return Outcome("after restoring the missing input: " + v, classes=cls)
+            return Outcome(None, nontrivial=True, classes=sorted(set(cls)))
         for c in blocked:
+            if blocked[c] is None:
+                continue
             if c in ev_started and c not in ev_failed:
                 return Outcome("symlink command %s reported success although its link cannot be created (a regular file "
                                "is where its directory should be)" % c, classes=cls)
